@@ -1117,4 +1117,30 @@ theorem DChain.mem_newStep (c : DChain V) (g : NewGuard) (hg : g = .always ∨ g
     · simp [hc]
     · simp [hc]
 
+
+/-- the data view of the derived container rules is the function view -/
+theorem derivedUnpack_eq_kinds (conv : CKind → V → V) (user : List (String × (V → V)))
+    (fields : List (String × Ty × Option V)) :
+    (derivedUnpack conv user fields).map (·.1) = (derivedKinds (keys user) fields).map (·.1) := by
+  induction fields with
+  | nil => rfl
+  | cons f rest ih =>
+    obtain ⟨n, t, dv⟩ := f
+    have hk : hasKey user n = (keys user).contains n := by
+      unfold hasKey
+      cases h : alookup user n with
+      | none =>
+        have := (alookup_none_iff user n).mp h
+        simp [this]
+      | some v =>
+        have : n ∈ keys user := by
+          by_cases hm : n ∈ keys user
+          · exact hm
+          · rw [(alookup_none_iff user n).mpr hm] at h; cases h
+        simp [this]
+    cases t <;> simp only [derivedUnpack, derivedKinds, ih]
+    rename_i k e
+    simp only [hk]
+    split <;> simp [ih]
+
 end Ipv8.C20
